@@ -322,18 +322,37 @@ func (c *Cmd) Start() error {
 		done := c.ctx.Done()
 		simrt.Go(func() {
 			simrt.Yield()
+			ctxDone, procDead := false, false
 			select {
 			case <-done:
-				simrt.Woke()
+				ctxDone = true
+			case <-p.DeadCh:
+				procDead = true
+			case <-simrt.Dead():
+				simrt.Die()
+			}
+			simrt.Woke()
+			// By the time this goroutine runs again the other channel may be ready as well; Go would have
+			// picked at random between the two, here the tape decides (replayable).
+			select {
+			case <-done:
+				ctxDone = true
+			default:
+			}
+			select {
+			case <-p.DeadCh:
+				procDead = true
+			default:
+			}
+			if ctxDone && procDead && simrt.SelectOrder(2)[0] == 1 {
+				ctxDone = false
+			}
+			if ctxDone {
 				if c.Cancel != nil {
 					_ = c.Cancel()
 				} else {
 					_ = simsignal.Deliver(p, syscall.SIGKILL)
 				}
-			case <-p.DeadCh:
-				simrt.Woke()
-			case <-simrt.Dead():
-				simrt.Die()
 			}
 		})
 	}
@@ -393,19 +412,35 @@ func (c *Cmd) Wait() error {
 		})
 		t := time.NewTimer(c.WaitDelay)
 		simrt.Yield()
+		copied, expired := false, false
 		select {
 		case <-done:
-			simrt.Woke()
-			t.Stop()
+			copied = true
 		case <-t.C:
-			simrt.Woke()
+			expired = true
+		case <-simrt.Dead():
+			simrt.Die()
+		}
+		simrt.Woke()
+		if expired {
+			// both may be ready by now: the tape decides, as in the watcher above
+			select {
+			case <-done:
+				copied = true
+			default:
+			}
+			if copied && simrt.SelectOrder(2)[0] == 0 {
+				expired = false
+			}
+		}
+		if expired {
 			waitDelayExpired = true
 			for _, f := range c.parentFD {
 				_ = f.Close()
 			}
 			c.copiers.Wait()
-		case <-simrt.Dead():
-			simrt.Die()
+		} else {
+			t.Stop()
 		}
 	} else {
 		c.copiers.Wait()
